@@ -72,7 +72,9 @@ class AdsaBinding(Binding):
         idx = [i for i, t in enumerate(w.timers) if w._timer_owner(t) == a["c"]]
         if len(idx) != 1:
             raise KeyError("computation %s has %d periodic actions armed" % (a["c"], len(idx)))
-        ev = w.step(("timer", idx[0]))
+        import contextlib, io
+        with contextlib.redirect_stdout(io.StringIO()):      # (tick() prints while it waits for neighbour values)
+            ev = w.step(("timer", idx[0]))
         left = list(w.rnd.forced)
         w.rnd.forced.clear()
         return ev, left
